@@ -334,7 +334,10 @@ func runUDPLife(t *testing.T, ci interface{}, trace bool) *common.Outcome {
 				}
 			})
 		}
-		simrt.WaitStuck("remotes-done", 20*time.Second, func() bool { return done >= len(c.Remotes) })
+		// (every wait inside a remote is bounded, so the remotes always finish; waiting with a horizon
+		// here let the root go on - and, since the audit below, stop the engine - while a remote was
+		// merely idling between two rounds: a false alarm of this harness, seen with seed 8)
+		simrt.WaitUntil("remotes-done", func() bool { return done >= len(c.Remotes) })
 		w.EnterFair()
 		simrt.Quiesce(100 * time.Millisecond)
 		// ... whatever ends it: engine Stop. Every session that is still open now (last rounds
